@@ -32,6 +32,22 @@ type Decoder struct {
 	*protocol.Decoder
 }
 
+// ReadUint16 reads the whole two-byte item: a single Read of the buffered reader hands out
+// one byte only when the item straddles the end of its buffer (offset 4095 of a message)
+func (d *Decoder) ReadUint16() int {
+	if d.LastError != nil {
+		return 0
+	}
+
+	buffer := [2]byte{}
+	if _, err := io.ReadFull(d, buffer[:]); err != nil {
+		d.LastError = err
+		return 0
+	}
+
+	return int(binary.LittleEndian.Uint16(buffer[:]))
+}
+
 func (d *Decoder) ReadData() []byte {
 	if d.LastError != nil {
 		return []byte{}
